@@ -164,7 +164,7 @@ def gen_cases(rec, rng, tier):
     thorough = tier == 'thorough'
     for t in common.shard_slice(rxg.enum_trees(6), rec):
         yield {'kind': 'rx', 'cls': 'enum_tree', 'ref': t}
-    for _ in range(500 if thorough else 150):
+    for _ in range(2000 if thorough else 150):
         yield {'kind': 'dfa', 'cls': 'random_dfa', 'ref': txg.dfa(rng)}
         R, eps = txg.nfa(rng)
         yield {'kind': 'nfa', 'cls': 'random_nfa', 'ref': R, 'eps': eps, 'container': rng.choice(adapt.NFA_KINDS)}
